@@ -11,11 +11,11 @@ let rec nat_of_int n = if n <= 0 then Datatypes.O else Datatypes.S (nat_of_int (
 let rec int_of_nat = function Datatypes.O -> 0 | Datatypes.S n -> 1 + int_of_nat n
 (* decimal strings of arbitrary size (for 64-bit values that do not fit OCaml's 63-bit int) *)
 let z_of_string s =
-  let neg = String.length s > 0 && s.[0] = '-' in
-  let s = if neg then String.sub s 1 (String.length s - 1) else s in
+  let neg = Stdlib.String.length s > 0 && Stdlib.String.get s 0 = '-' in
+  let s = if neg then Stdlib.String.sub s 1 (Stdlib.String.length s - 1) else s in
   let ten = z_of_int 10 in
   let r = ref Z0 in
-  String.iter (fun c -> r := BinInt.Z.add (BinInt.Z.mul !r ten) (z_of_int (Char.code c - 48))) s;
+  Stdlib.String.iter (fun c -> r := BinInt.Z.add (BinInt.Z.mul !r ten) (z_of_int (Char.code c - 48))) s;
   if neg then BinInt.Z.opp !r else !r
 let string_of_z z =
   let ten = z_of_int 10 in
